@@ -964,6 +964,18 @@ class Interp:
         if name is None:
             raise Unsupported('indirect call')
         ops = ins['ops']
+        if name == 'llvm.ubsantrap':
+            # -fsanitize-trap: this block is reached exactly when the check failed; record the obligation (kind byte, path condition, source chain)
+            if not hasattr(self, 'traps'):
+                self.traps = []
+            kind = int(ops[0]['c']['v']) if 'c' in ops[0] else -1
+            self.traps.append({'kind': kind, 'cond': self.cond[self.cur], 'dbg': ins.get('dbg'), 'block': self.cur})
+            return
+        if name in ('llvm.trap',):
+            if not hasattr(self, 'traps'):
+                self.traps = []
+            self.traps.append({'kind': -2, 'cond': self.cond[self.cur], 'dbg': ins.get('dbg'), 'block': self.cur})
+            return
         ty = parse_ty(ins['ty'])
         if name.startswith('llvm.'):
             return self._intrinsic(ins, name, ops, ty)
